@@ -247,6 +247,60 @@ def C18(ctx):
             owned[k % nw].append(i)
     ctx.extra["snapshots"] = {"linux": len(snaps["linux"]), "x86": len(snaps["x86"]), "x86+linux": len(snaps["x86+linux"]), "used_this_run": sorted(set(sum(owned, [])))}
     std_check(ctx, [dict(harness="c18", aliases=["c18_snapshots"], cases=(250, 9000), max_ops=40, worker_env=lambda w: {"VERIF_C18_OWNED": ",".join(owned[w])})])
+    if not ctx.quick():
+        c18_enumerate(ctx, [i for i, _ in sorted(snaps["linux"], key=lambda x: x[1])[:28]])
+
+
+def c18_enumerate(ctx, snapshot_ids):
+    """thorough only: every single removal under sys/devices/system of the 28 smallest Linux snapshots, and every pair for those with at most 120
+    such paths, each with two configurations (named cases enum:<mode>:<k>:<n> of the harness, 16 shares per snapshot and mode)"""
+    from concurrent.futures import ThreadPoolExecutor
+    binp = hbin("c18")
+    shares = 16
+    jobs = [(sid, mode, k) for sid in snapshot_ids for mode in (1, 2) for k in range(shares)]
+    tot = {"single_removal_sets": 0, "pairwise_removal_sets": 0, "snapshots_single": set(), "snapshots_pairwise": set(), "failures": 0}
+
+    def run(job):
+        sid, mode, k = job
+        tag = "enum-%s-%d-%d" % (sid.replace("/", "_"), mode, k)
+        wd = os.path.join(ctx.work, tag)
+        os.makedirs(wd, exist_ok=True)
+        rp = os.path.join(wd, "enum.replay")
+        with open(rp, "w") as fh:
+            fh.write("# verif-replay v1 property=C18 harness=c18_snapshots seed=0\n# env: VERIF_C18_OWNED=%s\nnamed: enum:%d:%d:%d\n" % (sid, mode, k, shares))
+        env = V.base_env()
+        env.update({"VERIF_C18_OWNED": sid, "VERIF_C18_ENUM_OUT": os.path.join(wd, "enum.json")})
+        outj = os.path.join(wd, "out.json")
+        subprocess.run([binp, "--replay", rp, "--out", outj, "--workdir", wd, "--repeat", "1"], env=env, stdout=subprocess.PIPE, stderr=subprocess.STDOUT)
+        try:
+            res = json.load(open(outj))
+        except Exception:
+            res = {"verdict": "error", "signature": "driver:no-output"}
+        try:
+            st = json.load(open(os.path.join(wd, "enum.json")))
+        except Exception:
+            st = None
+        shutil_rm = os.path.join(wd, "snaps")
+        subprocess.run(["rm", "-rf", shutil_rm])
+        return job, res, st, rp
+
+    with ThreadPoolExecutor(V.workers_default()) as ex:
+        for job, res, st, rp in ex.map(run, jobs):
+            sid, mode, k = job
+            if st:
+                key = "single_removal_sets" if mode == 1 else "pairwise_removal_sets"
+                tot[key] += st["removal_sets_run"]
+                if st["removal_sets_run"]:
+                    tot["snapshots_single" if mode == 1 else "snapshots_pairwise"].add(sid)
+            if res.get("verdict") == "fail":
+                tot["failures"] += 1
+                dst = ctx.save_violation(rp, "enum-%s-%d-%d.replay" % (sid.replace("/", "_"), mode, k))
+                ctx.violations.append(("%s: %s" % (res.get("signature", ""), str(res.get("msg", ""))[:300].replace("\n", " | ")), dst))
+            elif res.get("verdict") != "pass":
+                ctx.inconclusive.append("enumeration %s mode %d share %d: %s" % (sid, mode, k, res.get("verdict")))
+    ctx.extra["exhaustive_slices"] = {"what": "every single removal (and, for snapshots with at most 120 such paths, every pair) among the removable paths under sys/devices/system, x 2 configurations (default; INCLUDE_DISALLOWED + all types kept)",
+                                      "single_removal_sets_run": tot["single_removal_sets"], "pairwise_removal_sets_run": tot["pairwise_removal_sets"],
+                                      "snapshots_single": sorted(tot["snapshots_single"]), "snapshots_pairwise": sorted(tot["snapshots_pairwise"]), "failures": tot["failures"]}
 
 
 def C20(ctx):
